@@ -14,7 +14,7 @@ from rsx import ExtractError
 NAME = 'u_table'
 PROPERTIES = ['C02', 'C04']
 CONTRACTS = 'u_table.contracts'
-SHARED_CONTRACTS = ['u_modes.contracts', 'u_tmpl.contracts', 'u_fcontent.contracts', 'u_stack.contracts', 'u_aaa.contracts']
+SHARED_CONTRACTS = ['u_modes.contracts', 'u_tmpl.contracts', 'u_fcontent.contracts', 'u_stack.contracts', 'u_aaa.contracts', 'u_misa.contracts']
 RLIMIT = 80
 H = u_stack.H
 R = u_modes.R
